@@ -392,6 +392,15 @@ def run(ctx):
         char_shortcut(ctx)
     if ctx.shard % 4 == 2:
         direct_types(ctx, ctx.rng("direct"), 2 if not ctx.thorough else 25)
+    if ctx.shard % 4 == 1:
+        # to-end-of-stream arrays whose elements are read entry by entry (with an end-of-stream probe before each)
+        from ..gen import F, L_EOF, N_array, N_int, N_struct
+
+        for elem in (N_int("int24"), N_struct([F("a", N_int("uint8")), F("b", N_int("uint16"))]), N_int("uint48")):
+            case = gen.simple_case([F("h", N_int("uint8")), F("x", N_array(elem, L_EOF))])
+            case["named"] = {}
+            ctx.cell("eof-array-of-entry-by-entry-elements")
+            check_case(ctx, case, ctx.rng("eof-entry", repr(elem)))
     for i in range(N_CASES[ctx.tier]):
         if ctx.out_of_time():
             break
